@@ -8,7 +8,7 @@ TECHNIQUE = "static analysis over type-checked MIR: cross-check of separator con
 LEVEL_TEXT = """Static, all-paths decision of the structural clauses of the routing tree (the tree algorithm's exactness for every configuration and target is NOT claimed): (R11) the configuration accessors, builder setters and build() functions through which routing reads names, levels, additivity and appender lists return/store exactly the same-named field (C13.V7 re-evaluated); (R1) one separator constant in add/find, slice offset = len(SEP), and the name check uses SEP's character and length; (R2) the insertion loop iterates a vector on which an ascending sort by name length (or name) dominates the loop; (R3) the new node's appender list is extended with the parent's only on the additive==true edge; (R4) the leaf takes level/appenders from the parameters, the implied intermediate takes the parent's level and a clone of its appenders, chosen by rest.is_empty(); (R5) in find the only back edge is on the children.get(part)==Some arm which rebinds the node, None leaves the loop, the result is the last bound node; (R6) enabled is threshold >= level; (R7) exactly one indexed delivery site inside the loop over the node's own appender list, gated by enabled(record.level()); (R8) the name->index map is built from enumerate() over the same vector that becomes the appender table via into_iter() with no reordering in between; (R9) an existing child is never replaced: insert only on the get_mut==None edge, the Some edge recurses and returns; (R10) both recursive add calls forward rest/appenders/additive/level unchanged."""
 LEVEL_NOTE = "Trusted: rustc MIR/callee resolution; HashMap/str::find/split/sort_by_key semantics. Decides shape clauses on all paths of four functions; a shape-preserving semantic change inside the map keying (e.g. lower-casing a component) is not detected."
 EXPLANATION = """Decided: R1 separator agreement, R2 ancestors first, R3 additive polarity, R4 inheritance shape, R5 longest-prefix walk, R6 threshold comparator, R7 fan-out, R8 index-table agreement, R9 no replacement of existing nodes, R10 recursion forwards its arguments. Undecided: exactness of the tree algorithm for every configuration and target (recursion, HashMap semantics, empty components, stray colons)."""
-DECIDED = ["R1", "R2", "R3", "R4", "R5", "R6", "R7", "R8", "R9", "R10", "R11 config accessors/setters/build are faithful"]
+DECIDED = ["R1", "R2", "R3", "R4", "R5", "R6", "R7", "R8", "R9", "R10", "R11 config accessors/setters/build are faithful", "R12 a failing appender does not cost later attachments their delivery (C03.F3 re-evaluated)", "R13 every declared logger is inserted (no path through add() skips both the insertion and the recursion)"]
 UNDECIDED = ["exact routing for all configurations/targets"]
 TRUSTED = ["rustc nightly MIR + Instance::try_resolve", "std HashMap / str / slice::sort semantics"]
 
@@ -81,9 +81,28 @@ def rest_expr_is(e, pos):
     return okc and oks
 
 
+def rule_add_total(ctx, p, cfg, rid="R13"):
+    """Every declared logger ends up in the tree: in the insertion function no path returns without either recursing
+    into an existing child or inserting a node (no early exit that drops a declaration)."""
+    with ctx.rule(rid, "every declaration is inserted", cfg) as r:
+        ro = anchors.routing(p)
+        a = ro["add"]
+        rec = [c.block for c in a.calls(a.path)]
+        ins = [c.block for c in a.calls() if (c.callee or "").rsplit("::", 1)[-1] == "insert" and "HashMap" in (c.callee or "")]
+        r.require(bool(ins), "has-insertion", fn=a, detail="children.insert sites: %d" % len(ins))
+        via_self = [b for b in rec if not any(a.can_reach(x, b) and x != b for x in ins)]
+        must = set(ins) | set(rec)
+        bad = [rb for rb in a.return_blocks() if rb in a.reach(0, avoid=must, include_src=True)]
+        r.require(not bad, "no-path-skips-insertion", fn=a, detail="every path to return passes the insertion or the recursion into an existing child",
+                  fail_detail="a path through %s returns without inserting the logger and without descending (%s): that declaration is silently dropped — its targets resolve to an ancestor" % (
+                      a.path, [q.path_between(a, 0, rb, avoid=list(must)) for rb in bad][:1]))
+
+
 def run_cfg(ctx, p, cfg):
-    from rules import accessors
+    from rules import accessors, c03
     accessors.rule_fidelity(ctx, p, cfg, "R11")   # routing reads names, levels, additivity and appender lists through these
+    c03.rule_error_isolation(ctx, p, cfg, "R12")   # a failing appender does not cost the later attachments their delivery
+    rule_add_total(ctx, p, cfg, "R13")
     with ctx.rule("R1", "separator agreement", cfg) as r:
         ro = anchors.routing(p)
         a, f = ro["add"], ro["find"]
